@@ -10,6 +10,7 @@ Modular inverses are mathint.modinv (uninterpreted, with range facts); prime-ord
 """
 from spec import mathint
 from spec import der
+from spec import rfc8017
 
 SIG = {
     'pmul': {'sort': 'int', 'uf': True},
@@ -23,6 +24,8 @@ SIG = {
     'elems_int': {'sort': 'int', 'uf': True},
     'ecdsa_valid': 'bool', 'dsa_valid': 'bool', 'seq_ok': 'bool', 'seq_count': 'int', 'seq_only_nonneg_ints': 'bool', 'seq_int': 'int',
     'leftmost': 'int',
+    'int_content': {'sort': 'bytes', 'uf': True, 'facts': ['len(result) >= 1']},
+    'der_sig': 'bytes', 'der_int': 'bytes',
 }
 
 
@@ -168,3 +171,62 @@ def sig_s(encoding, sig, ob):
 def in_range(r, s, q):
     """FIPS 186-4 4.7 / 6.4.2 step 1: 0 < r < q and 0 < s < q"""
     return 0 < r and r < q and 0 < s and s < q
+
+
+# ---------------------------------------------------------------- admissible hash functions (FIPS 186-3/4 with FIPS 180-4 / FIPS 202)
+
+def approved_hash_dsa(oid_id):
+    """Crypto.Signature.DSS 'fips-186-3' with a DSA key: SHA-1 (OID 1.3.14.3.2.26) or a member of the NIST hash arc
+    2.16.840.1.101.3.4.2 (SHA-2 and SHA-3 families)"""
+    return rfc8017.oid_is(oid_id, "1.3.14.3.2.26") or rfc8017.oid_startswith(oid_id, "2.16.840.1.101.3.4.2.")
+
+
+def approved_hash_ecdsa(oid_id):
+    """Crypto.Signature.DSS 'fips-186-3' with an ECC key: SHA-224/256/384/512, SHA-512/224, SHA-512/256, SHA3-224/256/384/512
+    (NIST CSOR: 2.16.840.1.101.3.4.2.{4,1,2,3,5,6,7,8,9,10}); SHA-1 is not admitted"""
+    return (rfc8017.oid_is(oid_id, "2.16.840.1.101.3.4.2.4") or rfc8017.oid_is(oid_id, "2.16.840.1.101.3.4.2.7") or
+            rfc8017.oid_is(oid_id, "2.16.840.1.101.3.4.2.5") or rfc8017.oid_is(oid_id, "2.16.840.1.101.3.4.2.1") or
+            rfc8017.oid_is(oid_id, "2.16.840.1.101.3.4.2.8") or rfc8017.oid_is(oid_id, "2.16.840.1.101.3.4.2.6") or
+            rfc8017.oid_is(oid_id, "2.16.840.1.101.3.4.2.2") or rfc8017.oid_is(oid_id, "2.16.840.1.101.3.4.2.9") or
+            rfc8017.oid_is(oid_id, "2.16.840.1.101.3.4.2.3") or rfc8017.oid_is(oid_id, "2.16.840.1.101.3.4.2.10"))
+
+
+# ---------------------------------------------------------------- signature generation, FIPS 186-4 4.6 / 6.4.1 (SEC1 4.1.3)
+
+def ecdsa_r(G, n, k):
+    """r = x([k]G) mod n"""
+    return px(pmul(G, k)) % n
+
+
+def dsa_r(p, q, g, k):
+    """r = (g^k mod p) mod q"""
+    return pow(g, k, p) % q
+
+
+# ---------------------------------------------------------------- signature encodings produced by sign()
+
+def int_content(x):
+    """X.690 8.3: the minimal two's complement content octets of the INTEGER x (at least one octet)"""
+    pass
+
+
+def der_int(x):
+    c = int_content(x)
+    return b'\x02' + der.encode_length(len(c)) + c
+
+
+def der_sig(r, s):
+    """DER of SEQUENCE { r INTEGER, s INTEGER }"""
+    body = der_int(r) + der_int(s)
+    return b'\x30' + der.encode_length(len(body)) + body
+
+
+def binary_sig(r, s, ob):
+    """IEEE P1363: I2OSP(r, ob) || I2OSP(s, ob)"""
+    return i2osp(r, ob) + i2osp(s, ob)
+
+
+def encode_sig(encoding, r, s, ob):
+    if encoding == 'binary':
+        return binary_sig(r, s, ob)
+    return der_sig(r, s)
